@@ -1,9 +1,11 @@
 import ScrutModel.Lemmas.Exec
 import ScrutModel.Lemmas.TestRunProps
+import ScrutModel.Lemmas.TestRunScript
 /-!
 # C15 — The skip exit code skips the whole document, and nothing else does
 
-The second half (`C15_integrated_…`, `C15_document_…`, `C15_script_…`) states the property about the
+The second half (`C15_integrated_…`, `C15_document_…`, `C15_script_…`, `C15_cram_document_…`,
+`C15_compat_document_…`) states the property about the
 INTEGRATED model of `scrut test` (`Model/TestRun.lean`, tied to the binary by `e2e-testdoc`,
 `e2e-testcram`, `e2e-testdoc-cram-compat`).  The runs of the integrated model are COMPLETED commands
 (exit code, stdout, stderr): no timeouts exist in this fragment, so the only source of a `skipped`
@@ -133,6 +135,92 @@ theorem C15_script_all_or_none {tests : List Test} {runs : List SRan} {outcomes 
     outcomes = (List.range tests.length).map (fun i => (i, Verdict.skipped)) ∧ status = 0 :=
   runScript_skip_all_or_none h hs
 
+/-- reading aid: `scriptSkipCode tests` is the skip code of the ONE script -- the compiled
+`skip_document_code` (80 when no test case sets one); every test case that sets a skip code sets it -/
+theorem C15_script_skip_code {tests : List Test} {cfg : Compiled}
+    (h : compileTestcase tests = some cfg) :
+    scriptSkipCode tests = cfg.skipCode.getD 80 ∧
+    ∀ t ∈ tests, t.cfg.skipCode = none ∨ t.cfg.skipCode = cfg.skipCode :=
+  ⟨by unfold scriptSkipCode; rw [h], compiled_skipCode h⟩
+
+/-- reading aid: `scriptSkips tests runs` says that the command of some test, in front of which no
+command left the shell (`exit N`), ended with the skip code -- it is then on that test's divider
+line or, if the command itself leaves the shell, it is the script's own exit status --, OR that the
+skip code is 0 and no command left the shell (the script's own exit status is that of its last
+`echo`, 0). -/
+theorem C15_script_skips_iff (tests : List Test) (runs : List SRan) :
+    scriptSkips tests runs = true ↔
+      (∃ (i : Nat) (r : SRan), i < tests.length ∧ runs[i]? = some r ∧ r.ran.code = scriptSkipCode tests ∧
+        ∀ (j : Nat) (x : SRan), j < i → runs[j]? = some x → x.leaves = false) ∨
+      ((∀ x ∈ runs.take tests.length, x.leaves = false) ∧ scriptSkipCode tests = 0) :=
+  scriptSkips_iff tests runs
+
+/-- **C15, single-script executor** (the skip code skips the whole document): if `scriptSkips`,
+every test of the document is reported `skipped` -- also those that ran before -- and the exit
+status is 0.  For all documents and runs (no bound on the number of test cases). -/
+theorem C15_script_skip_all {tests : List Test} {runs : List SRan} {outcomes : List Outcome}
+    {status : Nat} (h : runScript tests runs = .report outcomes status)
+    (hs : scriptSkips tests runs = true) :
+    outcomes = (List.range tests.length).map (fun i => (i, Verdict.skipped)) ∧ status = 0 :=
+  (runScript_skip h).1 hs
+
+/-- **C15, single-script executor** (nothing else skips): test `i` is reported `skipped` only if
+`scriptSkips`; every other verdict is `success`, wrong output or wrong exit code (completed
+commands: there are no timeouts in this fragment). -/
+theorem C15_script_nothing_else_skips {tests : List Test} {runs : List SRan}
+    {outcomes : List Outcome} {status : Nat} (h : runScript tests runs = .report outcomes status) :
+    (∀ i, (i, Verdict.skipped) ∈ outcomes ↔ (i < tests.length ∧ scriptSkips tests runs = true)) ∧
+    (∀ o ∈ outcomes, o.2 = .ok ∨ o.2 = .malformed ∨ o.2 = .skipped ∨ ∃ c e, o.2 = .invalidExit c e) :=
+  (runScript_skip h).2
+
+/- The statement "a `skipped` verdict means that the command of SOME TEST ended with the skip code",
+
+    theorem C15_script_skipped_cause (h : runScript tests runs = .report outcomes status)
+        (hi : (i, Verdict.skipped) ∈ outcomes) :
+        ∃ j r, j < tests.length ∧ runs[j]? = some r ∧ r.ran.code = scriptSkipCode tests ∧
+          ∀ k x, k < j → runs[k]? = some x → x.leaves = false
+
+is FALSE for the single-script executor when the skip code is 0: the script's own exit status is
+compared with the skip code first, and a script that runs to its end ends with the status of its last
+`echo`, 0 (`C15_script_skipped_cause_fails_on_witness`).  It holds for every other skip code. -/
+
+/-- … under the guard "the skip code is not 0" -/
+theorem C15_script_skipped_cause_partial {tests : List Test} {runs : List SRan}
+    {outcomes : List Outcome} {status i : Nat} (h : runScript tests runs = .report outcomes status)
+    (h0 : scriptSkipCode tests ≠ 0) (hi : (i, Verdict.skipped) ∈ outcomes) :
+    ∃ (j : Nat) (r : SRan), j < tests.length ∧ runs[j]? = some r ∧ r.ran.code = scriptSkipCode tests ∧
+      ∀ (k : Nat) (x : SRan), k < j → runs[k]? = some x → x.leaves = false :=
+  runScript_skipped_cause h h0 hi
+
+/-- the witness: one test with `skip_document_code: 0` that expects the exit code 1; its command ends
+with 1 and does not leave the shell; the document is reported `skipped` -/
+theorem C15_script_skipped_cause_fails_on_witness :
+    testDocumentCompatBytes exSkip0Bytes exSkip0Runs = .report [(0, .skipped)] 0 ∧
+    CompatDocTests exSkip0Bytes exSkip0Tests ∧
+    runScript exSkip0Tests exSkip0Runs = .report [(0, .skipped)] 0 ∧ scriptSkipCode exSkip0Tests = 0 ∧
+    ∀ r ∈ exSkip0Runs, r.ran.code ≠ scriptSkipCode exSkip0Tests :=
+  ⟨ex_skip0_report, ex_skip0_docTests, ex_skip0_runScript⟩
+
+/-- **C15 from the bytes of a Cram document**: both directions for its prepared tests -/
+theorem C15_cram_document_skip {bytes : Bytes} {runs : List SRan} {outcomes : List Outcome}
+    {status : Nat} (h : testCramDocumentBytes bytes runs = .report outcomes status) :
+    ∃ tests, CramDocTests bytes tests ∧
+      (scriptSkips tests runs = true →
+        outcomes = (List.range tests.length).map (fun i => (i, Verdict.skipped)) ∧ status = 0) ∧
+      (∀ i, (i, Verdict.skipped) ∈ outcomes ↔ (i < tests.length ∧ scriptSkips tests runs = true)) ∧
+      (∀ o ∈ outcomes, o.2 = .ok ∨ o.2 = .malformed ∨ o.2 = .skipped ∨ ∃ c e, o.2 = .invalidExit c e) :=
+  testCramDocumentBytes_skip h
+
+/-- **C15 from the bytes of a Markdown document read under `--cram-compat`** -/
+theorem C15_compat_document_skip {bytes : Bytes} {runs : List SRan} {outcomes : List Outcome}
+    {status : Nat} (h : testDocumentCompatBytes bytes runs = .report outcomes status) :
+    ∃ tests, CompatDocTests bytes tests ∧
+      (scriptSkips tests runs = true →
+        outcomes = (List.range tests.length).map (fun i => (i, Verdict.skipped)) ∧ status = 0) ∧
+      (∀ i, (i, Verdict.skipped) ∈ outcomes ↔ (i < tests.length ∧ scriptSkips tests runs = true)) ∧
+      (∀ o ∈ outcomes, o.2 = .ok ∨ o.2 = .malformed ∨ o.2 = .skipped ∨ ∃ c e, o.2 = .invalidExit c e) :=
+  testDocumentCompatBytes_skip h
+
 /-! Non-vacuity, evaluated by the kernel from the bytes of a document with two test cases: the
 second command ends with 80; without a skip code nothing is skipped; a Cram document. -/
 example : testDocumentBytes exBytes exRunsSkip = .report [(0, .skipped), (1, .skipped)] 0 := ex_report_skip
@@ -141,6 +229,14 @@ example : testDocumentBytes exBytes exRunsBad = .report [(0, .ok), (1, .malforme
 example : skips exTests exRunsBad = false := by decide
 example : testCramDocumentBytes exCramBytes exCramRunsSkip = .report [(0, .skipped), (1, .skipped)] 0 :=
   ex_cram_skip
+/-- the Cram document: skip code 80; the second command ends with 80; the first command leaves the
+shell with 80 (`exit 80`); no skip code -/
+example : testCramDocumentBytes exCramBytes exCramRunsLeaveSkip = .report [(0, .skipped), (1, .skipped)] 0 :=
+  ex_cram_leave_skip
+example : scriptSkipCode exCramTests = 80 ∧ scriptSkips exCramTests exCramRunsSkip = true ∧
+    scriptSkips exCramTests exCramRunsLeaveSkip = true ∧ scriptSkips exCramTests exCramRuns = false :=
+  ex_cram_scriptSkips
+example : CramDocTests exCramBytes exCramTests := ex_cramDocTests
 
 end Integrated
 
